@@ -7,6 +7,7 @@ CONSTANTS
   HeldSw = "s_no"
   HeldMs = 2
   MaxTime = 4
+  Lax = 0
   MaxOps = 5
   LongAgo <- MCLongAgo
 INVARIANT Mirror
